@@ -410,10 +410,12 @@ type zzRef struct {
 	top    map[string][]byte
 	nested map[string][]byte
 	hasN   bool
+	hasU   bool   // a second top-level bucket "u" exists ...
+	uVal   []byte // ... holding key "k" with this value
 }
 
 func (r *zzRef) clone() *zzRef {
-	c := &zzRef{top: map[string][]byte{}, nested: map[string][]byte{}, hasN: r.hasN}
+	c := &zzRef{top: map[string][]byte{}, nested: map[string][]byte{}, hasN: r.hasN, hasU: r.hasU, uVal: r.uVal}
 	for k, v := range r.top {
 		c.top[k] = v
 	}
@@ -426,7 +428,26 @@ func (r *zzRef) clone() *zzRef {
 func zzApplyOps(tx walletdb.ReadWriteTx, ref *zzRef, nOps int) {
 	top := tx.ReadWriteBucket([]byte("t"))
 	for o := 0; o < nOps; o++ {
-		switch verifrt.Choice(6, "op") {
+		switch verifrt.Choice(7, "op") {
+		case 6: // a second top-level bucket: created with content, or looked
+			// up, deleted and looked up again - all inside this transaction
+			if !ref.hasU {
+				ub, err := tx.CreateTopLevelBucket([]byte("u"))
+				verifrt.Assert(err == nil && ub != nil, "c11-create-top-level")
+				v := verifrt.Bytes("uval", 2)
+				verifrt.Assert(ub.Put([]byte("k"), v) == nil, "c11-put")
+				ref.hasU, ref.uVal = true, v
+				lb := tx.ReadWriteBucket([]byte("u"))
+				verifrt.Assert(lb != nil && verifrt.BytesEq(lb.Get([]byte("k")), v), "c11-created-top-level-bucket-visible-in-own-tx")
+			} else {
+				lb := tx.ReadWriteBucket([]byte("u"))
+				verifrt.Assert(lb != nil && verifrt.BytesEq(lb.Get([]byte("k")), ref.uVal), "c11-top-level-bucket-content")
+				verifrt.Assert(tx.DeleteTopLevelBucket([]byte("u")) == nil, "c11-delete-top-level")
+				ref.hasU, ref.uVal = false, nil
+				verifrt.Assert(tx.ReadWriteBucket([]byte("u")) == nil, "c11-deleted-top-level-bucket-gone-in-own-tx")
+				verifrt.Assert(tx.DeleteTopLevelBucket([]byte("u")) == walletdb.ErrBucketNotFound, "c11-delete-missing-top-level")
+				verifrt.Reach("top-level-deleted")
+			}
 		case 0, 1: // put in top / nested
 			nested := verifrt.Choice(2, "where") == 1
 			k := zzKeys[verifrt.Choice(len(zzKeys), "key")]
@@ -558,6 +579,11 @@ func zzCheckContent(d walletdb.DB, ref *zzRef, label string) {
 		// a missing bucket is a nil interface, not a typed nil
 		verifrt.Assert(top.NestedReadBucket([]byte("zz")) == nil, label+"-missing-bucket-is-nil")
 		verifrt.Assert(tx.ReadBucket([]byte("zz")) == nil, label+"-missing-top-bucket-is-nil")
+		ub := tx.ReadBucket([]byte("u"))
+		verifrt.Assert((ub != nil) == ref.hasU, label+"-second-top-level-bucket-presence")
+		if ub != nil && ref.hasU {
+			verifrt.Assert(verifrt.BytesEq(ub.Get([]byte("k")), ref.uVal), label+"-second-top-level-bucket-content")
+		}
 		// a read transaction cannot modify anything
 		if rw, ok := top.(walletdb.ReadWriteBucket); ok {
 			verifrt.Assert(rw.Put([]byte("a"), []byte{9}) == walletdb.ErrTxNotWritable, label+"-read-tx-put-refused")
